@@ -510,7 +510,7 @@ impl Node {
 //@ impl: impl ErasedNode for Node
 //@ name: check_if_unnecessary
 //@ as: fn check_if_unnecessary(&self, state: &State)
-//@ props: C05
+//@ props: C05 C11
 //@ contract:
 //@|     // [teardown-only-for-unnecessary-nodes]: became_unnecessary requires !necessary()
 //@end
@@ -522,7 +522,7 @@ impl Node {
 //@ as: fn check_if_unnecessary__unnecessary_node_is_torn_down(&self, state: &State)
 //@ panics: diverge
 //@ rule R8: `self.became_unnecessary(state);` => `vx_diverge();` x1
-//@ props: C05
+//@ props: C05 C11
 //@ contract:
 //@|     requires !self.necessary(),
 //@|     ensures false, // [a-node-that-lost-its-last-dependant-and-observer-is-always-torn-down]
